@@ -90,6 +90,15 @@ def validate_tjp_file(tjp_path: str) -> Path:
     if not path.stat().st_size:
         raise FileNotFoundError(f"File is empty: {tjp_path}")
 
+    # Nothing but white space is no input either (the same bytes on stdin count as "no input")
+    try:
+        with open(path, "rb") as f:
+            if not f.read().strip():
+                raise FileNotFoundError(f"File is empty: {tjp_path}")
+    except OSError:
+        # Unreadable: reported where the content is read for hashing
+        pass
+
     return path
 
 
